@@ -1,8 +1,270 @@
-//! C13 — stub, to be written.
+//! C13: deserialisers and validate() are safe on arbitrary input.
+//!
+//! Case kinds (inputs => observed):
+//!   C13.text  <hex of the bytes>  => <ok|err|panic> <bdd|~> <to_string of the accepted value|~> <validate> <evals> <count> <and(true)>
+//!   C13.bytes <hex of the bytes>  => <ok|err|panic> <bdd|~> <validate> <evals> <count> <and(true)>
+//!   C13.nodes <|v,l,h|…|>         => <ok|err|panic> <bdd|~> <validate> <evals> <count> <and(true)>
+//! validate: vok | verr | vpanic | vhang | - (not run); the last three are run only for a value that `validate`
+//! (text, bytes) or `from_nodes` (nodes) accepted, each in a watched thread: evals = eval_in on all valuations
+//! (bit string, variable 0 most significant; `panic`, `hang`, `-` if more than 6 variables), count =
+//! exact_cardinality (`-` if more than 16 variables), and(true) = the result of `b.and(&true)`.
 #[path = "../common.rs"]
 mod common;
+#[path = "../serial_io.rs"]
+mod serial_io;
+use biodivine_lib_bdd::*;
 use common::*;
+use serial_io::*;
+use std::io::Read;
+use std::sync::atomic::{AtomicUsize, Ordering};
+use std::sync::mpsc;
+use std::time::Duration;
 
-pub fn run(key: &str, _a: &[String], _out: &mut Out) { panic!("unknown key {}", key) }
-pub fn gen(_tier: Tier, _rng: &mut Rng64, _out: &mut Out) {}
+fn s(x: &str) -> String { x.to_string() }
+
+static HANGS: AtomicUsize = AtomicUsize::new(0);
+const MAX_HANGS: usize = 12;
+
+enum Watched<T> { Done(T), Panic, Hang, Skipped }
+/// run `f` in its own thread; a panic and a hang (no answer within 2 s) are outcomes. A hung thread cannot be
+/// killed and keeps spinning, so after `MAX_HANGS` of them nothing more is started (`noeval`).
+fn watched<T: Send + 'static>(f: impl FnOnce() -> T + Send + 'static) -> Watched<T> {
+    if HANGS.load(Ordering::SeqCst) >= MAX_HANGS { return Watched::Skipped; }
+    let (tx, rx) = mpsc::channel();
+    std::thread::Builder::new().stack_size(64 << 20).spawn(move || { let r = catch(f); let _ = tx.send(r); }).expect("spawn");
+    match rx.recv_timeout(Duration::from_millis(2000)) {
+        Ok(Some(v)) => Watched::Done(v),
+        Ok(None) => Watched::Panic,
+        Err(_) => { HANGS.fetch_add(1, Ordering::SeqCst); Watched::Hang }
+    }
+}
+fn w_str(w: Watched<String>) -> String {
+    match w { Watched::Done(v) => v, Watched::Panic => s("panic"), Watched::Hang => s("hang"), Watched::Skipped => s("noeval") }
+}
+
+fn validate_field(b: &Bdd) -> String {
+    let b = b.clone();
+    match watched(move || b.validate().is_ok()) {
+        Watched::Done(true) => s("vok"), Watched::Done(false) => s("verr"), Watched::Panic => s("vpanic"), Watched::Hang => s("vhang"), Watched::Skipped => s("noeval"),
+    }
+}
+/// evals, count, and(true) of an accepted value
+fn accepted_fields(b: &Bdd) -> [String; 3] {
+    let n = match catch(|| b.num_vars()) { Some(n) => n as usize, None => return [s("panic"), s("panic"), s("panic")] };
+    let evals = if n <= 6 {
+        let b2 = b.clone();
+        w_str(watched(move || { let v: String = (0..(1usize << n)).map(|i| if b2.eval_in(&BddValuation::new(val_of_index(n, i))) { '1' } else { '0' }).collect(); v }))
+    } else { s("-") };
+    let count = if n <= 16 { let b2 = b.clone(); w_str(watched(move || b2.exact_cardinality().to_string())) } else { s("-") };
+    let b2 = b.clone();
+    let and = w_str(watched(move || { let t = Bdd::from_nodes(&nodes_of(&[(n as u64, 0, 0), (n as u64, 1, 1)])).expect("true"); fmt_bdd(&b2.and(&t)) }));
+    [evals, count, and]
+}
+fn dash3() -> [String; 3] { [s("-"), s("-"), s("-")] }
+
+pub fn run(key: &str, a: &[String], out: &mut Out) {
+    match key {
+        "C13.text" | "C13.bytes" => {
+            let data = unhex(&a[0]);
+            let is_text = key == "C13.text";
+            let r = catch(|| { let mut sl: &[u8] = &data; let dr: &mut dyn Read = &mut sl; if is_text { Bdd::read_as_string(dr).ok() } else { Bdd::read_as_bytes(dr).ok() } });
+            let mut obs = vec![];
+            match r {
+                None => { obs.push(s("panic")); obs.push(s("~")); if is_text { obs.push(s("~")); } obs.push(s("-")); obs.extend(dash3()); }
+                Some(None) => { obs.push(s("err")); obs.push(s("~")); if is_text { obs.push(s("~")); } obs.push(s("-")); obs.extend(dash3()); }
+                Some(Some(b)) => {
+                    obs.push(s("ok"));
+                    obs.push(fmt_bdd(&b));
+                    if is_text { obs.push(catch(|| b.to_string()).unwrap_or(s("panic"))); }
+                    let v = validate_field(&b);
+                    let acc = if v == "vok" { accepted_fields(&b) } else { dash3() };
+                    obs.push(v);
+                    obs.extend(acc);
+                }
+            }
+            out.case(key, a, &obs);
+        }
+        "C13.nodes" => {
+            let t = parse_triples(&a[0]);
+            let nodes = nodes_of(&t);
+            let r = catch(|| Bdd::from_nodes(&nodes).ok());
+            let mut obs = vec![];
+            match r {
+                None => { obs.push(s("panic")); obs.push(s("~")); obs.push(s("-")); obs.extend(dash3()); }
+                Some(None) => { obs.push(s("err")); obs.push(s("~")); obs.push(s("-")); obs.extend(dash3()); }
+                Some(Some(b)) => {
+                    obs.push(s("ok"));
+                    obs.push(fmt_bdd(&b));
+                    obs.push(validate_field(&b));
+                    obs.extend(accepted_fields(&b));
+                }
+            }
+            out.case(key, a, &obs);
+        }
+        _ => panic!("unknown key {}", key),
+    }
+}
+
+const BIG: [&str; 5] = ["65535", "65536", "4294967295", "4294967296", "340282366920938463463374607431768211456"];
+fn token(rng: &mut Rng64, class: usize) -> String {
+    match class {
+        0 => s(*rng.pick(&["0", "1", "2", "3", "0", "1"])),
+        1 => s(*rng.pick(&BIG)),
+        2 => s(","),
+        3 => s("|"),
+        4 => s(*rng.pick(&[" ", " ", "\t", "\u{a0}"])),
+        5 => s("+"),
+        6 => s("-"),
+        _ => s(*rng.pick(&["a", "x", "e", "_"])),
+    }
+}
+fn token_strings(depth: usize, rng: &mut Rng64, out: &mut Out, with_header: bool) {
+    let mut idx = vec![0usize; depth];
+    loop {
+        let st: String = idx.iter().map(|c| token(rng, *c)).collect();
+        run("C13.text", &[hex(st.as_bytes())], out);
+        if with_header {
+            let st2 = format!("|2,0,0|2,1,1{}", st);
+            run("C13.text", &[hex(st2.as_bytes())], out);
+        }
+        let mut p = depth;
+        loop {
+            if p == 0 { return; }
+            p -= 1;
+            idx[p] += 1;
+            if idx[p] < 8 { break; }
+            idx[p] = 0;
+        }
+    }
+}
+
+fn mutate_text(rng: &mut Rng64, text: &str) -> Vec<u8> {
+    let mut c: Vec<char> = text.chars().collect();
+    let n = c.len();
+    let pos = rng.below(n as u64 + 1) as usize;
+    match rng.below(14) {
+        0 => { if pos < n { c.remove(pos); } }
+        1 => { c.insert(pos, '|'); }
+        2 => { c.insert(pos, ','); }
+        3 => { for ch in rng.pick(&BIG).chars().rev() { c.insert(pos, ch); } }
+        4 => { c.insert(pos, *rng.pick(&['a', '-', '+', '_', '.', 'e'])); }
+        5 => { c.insert(pos, *rng.pick(&[' ', '\n', '\u{a0}', '\u{2003}', '\u{3000}', '\u{200b}', '\u{feff}'])); }
+        6 => { c.truncate(pos); }
+        7 => {
+            // drop one field of a record
+            if let Some(p) = c.iter().position(|x| *x == ',') { let mut q = p + 1; while q < c.len() && c[q].is_ascii_digit() { q += 1; } c.drain(p..q); }
+        }
+        8 => {
+            // add a fourth field
+            let bars: Vec<usize> = c.iter().enumerate().filter(|(i, x)| **x == '|' && *i > 0).map(|(i, _)| i).collect();
+            if !bars.is_empty() { let p = *rng.pick(&bars); for ch in ",7".chars().rev() { c.insert(p, ch); } }
+        }
+        9 => { if pos < n && c[pos].is_ascii_digit() { c[pos] = *rng.pick(&['0', '1', '2', '3', '4', '9']); } }
+        10 => { if pos < n { let x = c[pos]; c.insert(pos, x); } }
+        11 => { c.insert(pos, '0'); }
+        12 => { if n >= 2 { let q = rng.below(n as u64) as usize; c.swap(pos.min(n - 1), q); } }
+        _ => {
+            // raw byte damage: invalid UTF-8
+            let mut b: Vec<u8> = text.as_bytes().to_vec();
+            let p = rng.below(b.len() as u64 + 1) as usize;
+            let bad: &[u8] = *rng.pick(&[&[0xFFu8][..], &[0xC0, 0x80], &[0xE2, 0x80], &[0xED, 0xA0, 0x80], &[0xF4, 0x90, 0x80, 0x80], &[0x80], &[0xC2]]);
+            for (i, x) in bad.iter().enumerate() { b.insert(p + i, *x); }
+            return b;
+        }
+    }
+    c.into_iter().collect::<String>().into_bytes()
+}
+
+/// the exhaustive universe of small node arrays: terminals from 16 candidates each, inner nodes
+/// var 0..=2, links 0..=4
+fn term_candidates() -> Vec<(u64, u64, u64)> {
+    let mut v = vec![];
+    for var in 0..4u64 { for (l, h) in [(0u64, 0u64), (1, 1), (0, 1), (1, 0)] { v.push((var, l, h)); } }
+    v
+}
+fn inner_candidates() -> Vec<(u64, u64, u64)> {
+    let mut v = vec![];
+    for var in 0..3u64 { for l in 0..5u64 { for h in 0..5u64 { v.push((var, l, h)); } } }
+    v
+}
+fn array_cases(t: &[(u64, u64, u64)], text_too: bool, out: &mut Out) {
+    let txt = fmt_triples64(t);
+    run("C13.nodes", &[txt.clone()], out);
+    if text_too { run("C13.text", &[hex(txt.as_bytes())], out); }
+}
+
+pub fn gen(tier: Tier, rng: &mut Rng64, out: &mut Out) {
+    let thorough = tier == Tier::Thorough;
+    // --- small node arrays, exhaustively (sizes 1-3; size 4 with exact terminals; thorough: all of size 4)
+    let terms = term_candidates();
+    let inner = inner_candidates();
+    run("C13.text", &[s("~")], out);
+    run("C13.bytes", &[s("~")], out);
+    for a in &terms { array_cases(&[*a], true, out); }
+    for a in &terms { for b in &terms { array_cases(&[*a, *b], true, out); } }
+    for a in &terms { for b in &terms { for c in &inner {
+        let exact = a.1 == 0 && a.2 == 0 && b.1 == 1 && b.2 == 1 && a.0 == b.0;
+        array_cases(&[*a, *b, *c], thorough || exact || rng.chance(1, 4), out);
+    } } }
+    for a in &terms { for b in &terms {
+        let exact = a.1 == 0 && a.2 == 0 && b.1 == 1 && b.2 == 1 && a.0 == b.0 && a.0 >= 1 && a.0 <= 2;
+        if !(exact || thorough) { continue; }
+        for c in &inner { for d in &inner { array_cases(&[*a, *b, *c, *d], exact && (thorough || rng.chance(1, 3)), out); } }
+    } }
+    // size 4 with damaged terminals, sampled in the quick tier
+    if !thorough {
+        for _ in 0..4000 { array_cases(&[*rng.pick(&terms), *rng.pick(&terms), *rng.pick(&inner), *rng.pick(&inner)], rng.chance(1, 3), out); }
+    }
+    // size 5 sampled (links <= 4 all in range)
+    for _ in 0..(if thorough { 200000 } else { 4000 }) {
+        let n = 1 + rng.below(3);
+        let t = [(n, 0, 0), (n, 1, 1), *rng.pick(&inner), *rng.pick(&inner), *rng.pick(&inner)];
+        array_cases(&t, rng.chance(1, 2), out);
+    }
+    // --- token strings over {digit, big number, ',', '|', space, '+', '-', letter}
+    let depth = if thorough { 7 } else { 5 };
+    for d in 1..=depth { token_strings(d, rng, out, d <= 3); }
+    // --- mutated valid serialisations (text and binary), random bytes
+    let rounds = if thorough { 60000 } else { 3000 };
+    for _ in 0..rounds {
+        let n = rng.below(4) as usize;
+        let t = canon_triples(n, &random_tt(rng, n));
+        let text = fmt_triples(&t);
+        let mut m = mutate_text(rng, &text);
+        if rng.chance(1, 4) { m = mutate_text(rng, &String::from_utf8_lossy(&m)); }
+        run("C13.text", &[hex(&m)], out);
+        let t64: Vec<(u64, u64, u64)> = t.iter().map(|(a, b, c)| (*a as u64, *b as u64, *c as u64)).collect();
+        let mut by = vec![];
+        for (v, l, h) in &t64 { by.extend_from_slice(&(*v as u16).to_le_bytes()); by.extend_from_slice(&(*l as u32).to_le_bytes()); by.extend_from_slice(&(*h as u32).to_le_bytes()); }
+        match rng.below(5) {
+            0 => { let p = rng.below(by.len() as u64 + 1) as usize; by.truncate(p); }
+            1 => { if !by.is_empty() { let p = rng.below(by.len() as u64) as usize; by[p] = rng.next() as u8; } }
+            2 => { if !by.is_empty() { let p = rng.below(by.len() as u64) as usize; by[p] ^= 1 << rng.below(8); } }
+            3 => { for _ in 0..rng.below(12) { by.push(rng.next() as u8); } }
+            _ => { if !by.is_empty() { let p = rng.below(by.len() as u64) as usize; by.remove(p); } }
+        }
+        run("C13.bytes", &[hex(&by)], out);
+    }
+    for _ in 0..rounds {
+        let len = rng.below(46) as usize;
+        let small = rng.bool();
+        let by: Vec<u8> = (0..len).map(|_| if small { (rng.below(3)) as u8 } else { rng.next() as u8 }).collect();
+        run("C13.bytes", &[hex(&by)], out);
+        let tx: Vec<u8> = (0..len).map(|_| match rng.below(10) { 0 => rng.next() as u8, 1 => b'|', 2 => b',', _ => b'0' + rng.below(4) as u8 }).collect();
+        run("C13.text", &[hex(&tx)], out);
+    }
+    // --- valid but non-canonical diagrams (unreachable nodes, duplicates) through from_nodes / validate
+    for _ in 0..(if thorough { 20000 } else { 1500 }) {
+        let n = 1 + rng.below(5) as usize;
+        let b0 = random_bdd(rng, n);
+        let b = noncanon_variant(rng, &b0);
+        let mut t = triples_of(&b);
+        if rng.chance(1, 3) && t.len() > 2 {
+            let p = 2 + rng.below(t.len() as u64 - 2) as usize;
+            match rng.below(3) { 0 => t[p].0 = rng.below(n as u64 + 2), 1 => t[p].1 = rng.below(t.len() as u64 + 1), _ => t[p].2 = rng.below(t.len() as u64 + 1) }
+        }
+        array_cases(&t, true, out);
+    }
+}
+
 fn main() { harness_main(gen, run) }
